@@ -9,5 +9,6 @@ for sha in $(git -C /repo log --format=%h --grep='^fix:' --reverse); do
   pids="${MAP[$sha]:-}"
   [ -z "$pids" ] && { echo "$sha: no mapping"; continue; }
   git -C /repo diff "$sha" "$sha^" -- sigpy > /tmp/rw/revert_$sha.diff
-  /verif/tools/mutant.sh /tmp/rw/revert_$sha.diff $pids -- "$TIER" | sed "s|^|$(git -C /repo log -1 --format=%s $sha | cut -c1-60) :: |"
+  subj="$(git -C /repo log -1 --format=%s $sha | cut -c1-60)"
+  /verif/tools/mutant.sh /tmp/rw/revert_$sha.diff $pids -- "$TIER" | while IFS= read -r line; do printf '%s :: %s\n' "$subj" "$line"; done
 done
